@@ -95,38 +95,50 @@ def single_u_function(method, sampler, pivot=0):
     raise ValueError(method)
 
 
-def table_word_function(sampler):
-    """32-bit word -> state, through TableMethod.sample(1) with random.getrandbits scripted."""
-    def f(word):
-        with scripted_getrandbits([int(word)]):
-            out = sampler.sample(1)
-        return _scalar(out[0])
+@contextlib.contextmanager
+def getrandbits_cell():
+    """random.getrandbits replaced once by a reader of a one-element list (cheap per evaluation)."""
+    import random
 
-    return f
+    cell = [0]
+
+    def getrandbits(k):
+        return cell[0]
+
+    with mock.patch.object(random, "getrandbits", getrandbits):
+        yield cell
 
 
-def measure_table(sampler, K, thorough=False):
-    """Exact law of the Table method over the 2^32 words, by residue class of the low byte (the table index)
-    and integer bisection of the high 24 bits.  Returns ({state: probability}, evaluations)."""
-    f = table_word_function(sampler)
+def measure_table_fn(fword, K, thorough=False):
+    """Exact law of a word -> state map over the 2^32 words: for each residue class of the low byte (the table index)
+    integer bisection over the high 24 bits.  Probes per class: a coarse grid, the column starts k/K (+-2); a class that
+    is not constant on those gets the dense grid (>= 20 K points) -- the first such class -- or the break points found
+    there (+-2) as hints.  Returns ({state: probability}, evaluations, classes measured)."""
     n_hi = 1 << 24
     counts = {}
     evals = 0
     hints = set()
-    base = list(np.linspace(0, n_hi - 1, max(64, 8 * K)).astype(int))
+    coarse = [int(v) for v in np.linspace(0, n_hi - 1, 64)]
+    cols = [min(n_hi - 1, max(0, int(round(k * n_hi / K)) + d)) for k in range(K + 1) for d in (-2, -1, 0, 1, 2)]
+    dense = [int(v) for v in np.linspace(0, n_hi - 1, max(400, 20 * K))]
+    dense_done = False
     for b in range(256):
         def g(hi, b=b):
-            return f((hi << 8) | b)
+            return fword((hi << 8) | b)
 
-        probes = list(base) + [h + d for h in hints for d in (-2, -1, 0, 1, 2)]
-        c, e, brk = PW.measure_int(g, probes, n_hi)
+        c, e, brk = PW.measure_int(g, coarse + cols + [h + d for h in hints for d in (-2, -1, 0, 1, 2)], n_hi)
         evals += e
-        for s, cnt in c.items():
-            counts[s] = counts.get(s, 0) + cnt
-        if len(hints) < 4000:
-            hints.update(brk)
+        if len(c) > 1:
+            extra = dense if not dense_done else []
+            c, e, brk = PW.measure_int(g, coarse + cols + extra + [h + d for h in set(brk) | hints for d in (-2, -1, 0, 1, 2)], n_hi)
+            evals += e
+            dense_done = True
+            if len(hints) < 4000:
+                hints.update(brk)
+        for s_, cnt in c.items():
+            counts[s_] = counts.get(s_, 0) + cnt
     total = float(1 << 32)
-    return {s: c / total for s, c in counts.items()}, evals
+    return {s_: c / total for s_, c in counts.items()}, evals, 256
 
 
 def measure_sampler(method, sampler, K, target=None, extra_probes=()):
